@@ -90,6 +90,33 @@ theorem atomic_reparse : lutKeys.all (rowOk []) = true := by
 
 example : lutKeys.length ≥ 100 := by decide +kernel
 
+theorem isSym_eq {r : Except PErr (UExpr Rat)} {s : String} (h : isSym r s = true) : r = .ok (symE s) := by
+  unfold isSym at h
+  split at h
+  · next e =>
+    simp only [Bool.and_eq_true, beq_iff_eq] at h
+    cases e; simp_all [symE]
+  · cases h
+
+/-- **re-reading gives back the unit, not only the expression.**  The re-parsed expression is *equal*
+    (not merely equivalent) to the original one, so every quantity `Unit.__new__` computes from
+    (expression, registry) — base value, offset, dimensions, LaTeX, and the hash
+    `registry id ⊕ hash(expr)` — is the same: for every function `F` of the expression.
+    (That these attributes ARE functions of the expression for a unit built from a string is the
+    model `UnitV.ofExpr` of `_get_unit_data_from_expr`, validated by C02; units built by arithmetic can
+    carry attributes that are not — findings `offset-compound`, fix C20-04 — and are compared on the
+    real library by the direct oracle `reparse|*` only.) -/
+theorem atomic_reparse_whole_unit {α : Type} (F : UExpr Rat → α) (s : String) (hs : s ∈ lutKeys) :
+    (parseUnit (unitRepr (symE s))).map F = .ok (F (symE s)) ∧
+    (unitStr (symE s) = unitRepr (symE s) ∨ (parseUnit (unitStr (symE s))).map F = .ok (F (symE s))) := by
+  have h := List.all_eq_true.mp atomic_reparse s hs
+  simp only [rowOk, Bool.and_eq_true, Bool.or_eq_true, List.contains_nil, Bool.false_or, beq_iff_eq] at h
+  obtain ⟨h1, h2⟩ := h
+  refine ⟨by rw [isSym_eq h1]; rfl, ?_⟩
+  rcases h2 with h2 | h2
+  · exact Or.inl h2
+  · exact Or.inr (by rw [isSym_eq h2]; rfl)
+
 /-- the special-cased texts are read back (fix C20-01) -/
 theorem delta_deg_reparsed :
     strReparses "delta_degC" = true ∧ strReparses "delta_degF" = true ∧
@@ -158,6 +185,19 @@ theorem C20_total_counterexample : ¬ C20_total_full := by
   rcases h "9**9**9**9" with ⟨x, hx⟩ | hx
   · rw [e] at hx; cases hx
   · rw [e] at hx; injection hx with h'; exact PErr.noConfusion h'
+
+/-- **where the model is the specification and not the code.**  Outside the vocabulary the model only
+    says "outside the vocabulary — the property requires UnitParseError".  The code does not behave
+    like that on these three texts (`Unit('m+m')` = 2*m, `Unit('Integer(2)*m')` = 2*m are accepted,
+    `Unit("Symbol('')")` raises IndexError): findings `vocab|arith`, `vocab|global-class`,
+    `escape|outside-vocabulary|IndexError|unit-data`, replayed on the library by the harness.  The
+    clauses "no other exception type escapes" and "nothing outside the vocabulary is evaluated" are
+    therefore NOT theorems about the code; they rest on the direct oracles. -/
+theorem outside_vocabulary_model_is_specification :
+    isErr (parseUnit "m+m") .outOfVocabulary = true ∧
+    isErr (parseUnit "Integer(2)*m") .outOfVocabulary = true ∧
+    isErr (parseUnit "Symbol('')") .outOfVocabulary = true ∧
+    isErr (parseUnit "m.args") .outOfVocabulary = true := by decide +kernel
 
 /-- the same strings without the offending power are refused or accepted normally -/
 example : isErr (parseUnit "lat**2") .unitParseError = false ∧ isErr (parseUnit "m**s") .unitParseError = true ∧
